@@ -1,4 +1,4 @@
----- MODULE MC_C01_quick_d_deep_sd ----
+---- MODULE MC_C04_quick_d_arity3 ----
 EXTENDS CircuitSys
 c_Dom == <<2, 2, 2>>
 c_KSet == {2}
@@ -11,8 +11,8 @@ c_MaxAr == 3
 c_FreeOrder == FALSE
 c_MaxOuts == 1
 c_MaxBases == 1
-c_MaxOps == 0
-c_OpSet == {}
+c_MaxOps == 1
+c_OpSet == {"multiply"}
 c_Scheme == 6
 c_OnlySD == TRUE
 c_PolyDeg == 1
@@ -25,7 +25,7 @@ c_NVer == 2
 c_GradMod == 0
 c_QueryOn == FALSE
 c_J == 1
-c_EmitOps == {0}
+c_EmitOps == {1}
 c_EmitMod == 6
 c_EmitRes == 0
 c_EmitSmall == 3
